@@ -305,3 +305,79 @@ def parse_case_output(out, ncases):
             return float(s)
         res.append(([x == "true" for x in fl], tuple(f(x) for x in ev[:2]), [x == "true" for x in db]))
     return res
+
+
+# ----------------------------------------------------------------------------- Aspire-level runs with a checkpoint file
+
+def aspire_file_run(cfg, path, fail_at=None, resume=False, budget_s=60, every=1, extra_kwargs=None):
+    """Aspire.sample_posterior(..., checkpoint_path=path) with the 'fake' flow backend; or, with resume=True,
+    Aspire.resume_from_file(path) followed by sample_posterior with the same sampling arguments.
+    Returns a Run-like object (result, history, error, target, aspire)."""
+    from aspire import Aspire
+    NS = nsutil.namespaces()
+    xp = NS[cfg["ns"]]
+    dt = nsutil.native_dtype(cfg["ns"], cfg["width"])
+    dims, N = cfg["dims"], cfg["N"]
+    target = sd.Target(dims, s=cfg["s"], c=cfg["c"], prior=cfg["prior"])
+    target.fail_at = fail_at
+    rng = np.random.default_rng(cfg["seed"])
+    r = Run()
+    r.cfg, r.target, r.error, r.result, r.history = cfg, target, None, None, None
+    sk = dict(cfg["sample_kwargs"])
+    sk.pop("beta_tolerance", None)
+    sk.pop("store_sample_history", None)
+    old = signal.signal(signal.SIGALRM, _alarm)
+    signal.setitimer(signal.ITIMER_REAL, budget_s, 0.5)
+    try:
+        if resume:
+            a = Aspire.resume_from_file(path, log_likelihood=target.log_likelihood, log_prior=target.log_prior)
+        else:
+            flow = sd.FakeFlow(dims, seed=cfg["seed"] % 1000)
+            a = Aspire(log_likelihood=target.log_likelihood, log_prior=target.log_prior, dims=dims,
+                       parameters=[f"x_{i}" for i in range(dims)], flow=flow, xp=xp, dtype=dt, flow_backend="fake")
+        r.aspire = a
+        kw = dict(sampler="minipcn_smc", rng=rng, sampler_kwargs={"n_steps": cfg["mcmc_steps"]}, **sk)
+        kw.update(extra_kwargs or {})
+        if not resume:
+            kw.update(checkpoint_path=path, checkpoint_every=every)
+        r.result = a.sample_posterior(N, **kw)
+        r.history = a.sampler.history
+    except Watchdog as e:
+        r.error = ("watchdog", str(e))
+    except Exception as e:
+        r.error = (type(e).__name__, str(e), traceback.format_exc()[-1500:])
+    finally:
+        signal.setitimer(signal.ITIMER_REAL, 0)
+        signal.signal(signal.SIGALRM, old)
+    r.sampler = getattr(getattr(r, "aspire", None), "sampler", None)
+    if r.history is None and r.sampler is not None:
+        r.history = r.sampler.history
+    return r
+
+
+def same_outcome(ref, res):
+    """Bit-for-bit comparison of two finished runs. Returns list of differences."""
+    d = []
+    hb, hb2 = [float(b) for b in ref.history.beta], [float(b) for b in res.history.beta]
+    if hb != hb2:
+        d.append(f"temperatures differ: {hb} vs {hb2}")
+    if nsutil.to_list(ref.result.x) != nsutil.to_list(res.result.x):
+        d.append("final samples differ")
+    for nm in ("log_evidence", "log_evidence_error"):
+        a, b = nsutil.to_float(getattr(ref.result, nm)), nsutil.to_float(getattr(res.result, nm))
+        if a != b and not (math.isnan(a) and math.isnan(b)):
+            d.append(f"{nm} differs: {a} vs {b}")
+    for nm in ("ess", "ess_target", "eff_target", "log_norm_ratio", "log_norm_ratio_var", "mcmc_acceptance"):
+        a = [nsutil.to_float(v) for v in getattr(ref.history, nm)]
+        b = [nsutil.to_float(v) for v in getattr(res.history, nm)]
+        if a != b:
+            d.append(f"history.{nm} differs (lengths {len(a)} vs {len(b)})")
+    a, b = ref.history.sample_history, res.history.sample_history
+    if len(a) != len(b):
+        d.append(f"stored populations: {len(a)} vs {len(b)}")
+    else:
+        for i, (p, q) in enumerate(zip(a, b)):
+            if nsutil.to_list(p.x) != nsutil.to_list(q.x) or nsutil.to_list(p.log_likelihood) != nsutil.to_list(q.log_likelihood):
+                d.append(f"stored population {i} differs")
+                break
+    return d
